@@ -79,7 +79,8 @@ Check list_binary_results_order_free : forall oo1 oo2 ovf fo defs op a a' b b',
 Print Assumptions list_binary_results_order_free.
 
 (* (5) the extreme VALUE of a list never depends on the iteration order; the extreme
-   ITEM does when two items tie (defect D18: LIST_MAX(a + x) with L.a = M.x = 1) *)
+   ITEM did, when two items tie, under the iteration-order tie-break (defect D18:
+   LIST_MAX(a + x) with L.a = M.x = 1) — see Props/C03.v for the repaired code *)
 Theorem list_max_value_order_independent : forall oo1 oo2 l l',
   ord_ok oo1 -> ord_ok oo2 -> Permutation (l_items l) (l_items l') ->
   max_value oo1 l = max_value oo2 l'.
@@ -90,8 +91,10 @@ Check list_max_value_order_independent : forall oo1 oo2 l l',
 Print Assumptions list_max_value_order_independent.
 
 Theorem list_max_item_order_refuted :
-  exists oo1 oo2 l, ord_ok oo1 /\ ord_ok oo2 /\ get_max_item oo1 l <> get_max_item oo2 l.
+  exists oo1 oo2 l, ord_ok oo1 /\ ord_ok oo2 /\
+    get_max_item_tb oo1 TieIteration l <> get_max_item_tb oo2 TieIteration l.
 Proof. exact get_max_item_order_refuted. Qed.
 Check list_max_item_order_refuted :
-  exists oo1 oo2 l, ord_ok oo1 /\ ord_ok oo2 /\ get_max_item oo1 l <> get_max_item oo2 l.
+  exists oo1 oo2 l, ord_ok oo1 /\ ord_ok oo2 /\
+    get_max_item_tb oo1 TieIteration l <> get_max_item_tb oo2 TieIteration l.
 Print Assumptions list_max_item_order_refuted.
